@@ -2,6 +2,9 @@
 package checks
 
 import (
+	"encoding/json"
+	"github.com/deepteams/webp/internal/zzverif/arb"
+	"github.com/deepteams/webp/internal/zzverif/choice"
 	"bytes"
 	"fmt"
 	"image"
@@ -62,3 +65,76 @@ func xdecode(data []byte) (img image.Image, err error) {
 }
 
 var _ = time.Now
+
+// caseI is one enumerated case of a product-style check.
+type caseI interface {
+	key() string // identifies the input (known-findings key)
+	run() string // "" = property held; otherwise the violation
+}
+
+// exploreCases enumerates build's choice tree (bound <0: full product; else
+// deviation bound), executing the leaves of this shard.
+func exploreCases(e *fw.Env, r *fw.Result, bound int, build func(c *choice.Ctx) caseI) {
+	st := choice.Explore(choice.Config{Bound: bound, Shard: e.Shard, NShard: e.NShard, Stop: e.Expired}, func(c *choice.Ctx) {
+		cs := build(c)
+		if cs == nil {
+			return
+		}
+		if !c.Mine() {
+			return
+		}
+		if e.Expired() {
+			r.Cap("deadline reached before the enumeration finished")
+			return
+		}
+		r.Eval(1)
+		d := cs.run()
+		r.Distinct(cs.key())
+		r.Sample(3, cs)
+		if d != "" {
+			if r.Confirm(2, d, cs.run) {
+				r.Violate(cs.key(), d+" ["+cs.key()+"]", cs)
+			}
+		}
+	})
+	if st.Capped {
+		r.Cap("deadline reached before the enumeration finished")
+	}
+	if n := oracleDisagreements.Load(); n > 0 {
+		r.Count("oracle_disagreement_dropped", n)
+	}
+	r.SetInfo("libwebp_arbiter_available", arb.Available())
+	if e.Shard == 0 {
+		r.Count("leaves_enumerated", st.Runs)
+		r.Count("max_picks", int64(st.MaxDepth))
+	}
+}
+
+// register a product-style check with JSON replay.
+func registerCases[T any, PT interface {
+	*T
+	caseI
+}](id, level, rule string, assume []string, bound func(e *fw.Env) int, build func(e *fw.Env) func(c *choice.Ctx) caseI) {
+	fw.Register(&fw.Check{
+		ID: id, Level: level, Shards: shards16, Rule: rule, Assume: assume,
+		Run: func(e *fw.Env, r *fw.Result) {
+			pin()
+			b := -1
+			if bound != nil {
+				b = bound(e)
+			}
+			if b >= 0 {
+				r.SetInfo("deviation_bound_completed", b)
+			}
+			exploreCases(e, r, b, build(e))
+		},
+		Replay: func(e *fw.Env, raw json.RawMessage) string {
+			pin()
+			var cs T
+			if err := json.Unmarshal(raw, &cs); err != nil {
+				return "bad replay file: " + err.Error()
+			}
+			return PT(&cs).run()
+		},
+	})
+}
